@@ -202,4 +202,52 @@ theorem move_holds {m : Mem} {n : Nat} {rec : Nat → Rec} (ho : Ordered n rec) 
       · left
         exact ⟨rec k, ⟨(hm _).mpr ⟨k, h2, Or.inr h1, rfl⟩, htail k h1 h2⟩, rfl⟩
 
+/-- relocating record `c` to a free place `t` between its neighbours: what `find?` returns, that nothing live is hit,
+    and what the memory holds afterwards (element-wise relocation: `emplace_at` + `destruct` of the source) -/
+theorem relocate_holds {m : Mem} {n : Nat} {rec : Nat → Rec} (hh : Holds m n rec) (ho : Ordered n rec) (c : Nat) (hc : c < n)
+    (t : Nat) (hbefore : ∀ q, q < c → (rec q).off + (rec q).sz ≤ t)
+    (hafter : ∀ q, c < q → q < n → t + (rec c).sz ≤ (rec q).off) :
+    m.find? (fun r => r.off == (rec c).off) = some (rec c) ∧
+    (m.drop (rec c).off).hits t (rec c).sz = false ∧
+    Holds ((m.drop (rec c).off).write t (rec c).sz (rec c).e) n (fun q => if q = c then ⟨t, (rec c).sz, (rec c).e⟩ else rec q) := by
+  have hmem : rec c ∈ m := (hh (rec c)).mpr ⟨c, hc, rfl⟩
+  have hfind : m.find? (fun r => r.off == (rec c).off) = some (rec c) := by
+    cases hf : m.find? (fun r => r.off == (rec c).off) with
+    | none =>
+      have := List.find?_eq_none.mp hf (rec c) hmem
+      simp at this
+    | some r =>
+      have hr := List.find?_some hf
+      have hrm := List.mem_of_find?_eq_some hf
+      obtain ⟨j, hj, rfl⟩ := (hh r).mp hrm
+      have : j = c := ho.off_inj j c hj hc (by simpa using hr)
+      subst this; rfl
+  have hdrop := drop_holds hh ho c hc
+  have hnomeet : ∀ x ∈ m.drop (rec c).off, x.meets t (rec c).sz = false := by
+    intro x hx
+    obtain ⟨q, hq, hqc, rfl⟩ := (hdrop x).mp hx
+    simp only [Rec.meets, Bool.and_eq_false_iff, decide_eq_false_iff_not]
+    rcases Nat.lt_or_gt_of_ne hqc with h | h
+    · have := hbefore q h; left; right; omega
+    · have := hafter q h hq; left; left; omega
+  refine ⟨hfind, ?_, ?_⟩
+  · unfold Mem.hits
+    rw [List.any_eq_false]
+    intro x hx; rw [hnomeet x hx]; simp
+  · intro x
+    unfold Mem.write
+    simp only [List.mem_cons, List.mem_filter]
+    constructor
+    · rintro (rfl | ⟨hx, _⟩)
+      · exact ⟨c, hc, by simp⟩
+      · obtain ⟨q, hq, hqc, rfl⟩ := (hdrop x).mp hx
+        exact ⟨q, hq, by simp [hqc]⟩
+    · rintro ⟨q, hq, rfl⟩
+      by_cases hqc : q = c
+      · left; simp [hqc]
+      · right
+        simp only [hqc, if_false]
+        have hm : rec q ∈ m.drop (rec c).off := (hdrop _).mpr ⟨q, hq, hqc, rfl⟩
+        exact ⟨hm, by rw [hnomeet _ hm]; rfl⟩
+
 end Cntgs
